@@ -76,7 +76,9 @@ def sub(name, base):
     return {"className": name, "qualifiedClassName": name, "object": True,
             "superClasses": [{"access": "public", "name": base}]}
 classes = [vobj, sub("VSub", "VObj"), sub("QLabel1", "QLabel"), sub("Widget1", "QWidget"),
-           sub("QWidget1", "QWidget"), sub("KLineEdit", "QLineEdit")]
+           sub("QWidget1", "QWidget"), sub("KLineEdit", "QLineEdit"),
+           # classes that merely derive from the ones qmluic treats specially (C11: element kind by derivation)
+           sub("VMenu", "QMenu"), sub("VAction", "QAction"), sub("VTabs", "QTabWidget"), sub("VBox", "QVBoxLayout")]
 out = [{"classes": classes, "inputFile": "vtypes.h", "outputRevision": 68}]
 json.dump(out, open(os.path.join(os.path.dirname(__file__), "vtypes.json"), "w"), indent=1)
 print("wrote", len(classes), "classes,", len(props), "properties")
